@@ -404,7 +404,7 @@ def real_components(rep, rnd, n):
     from nauyaca.server.protocol import GeminiServerProtocol
     from nauyaca.protocol.response import GeminiResponse
     hostile = ["/app/x%0D%0A20%20text/gemini%0D%0A%23%20injected", "/app/%0A", "/app/%0d", "/app/" + "A" * 950, "/app/%00", "/app/\u00e9%C3%A9",
-               "/app/%2e/%0D%0Ax", "/app/%250D%250A", "/app/ %0D%0A%0D%0A", "/%61pp/%0D%0A31%20gemini://evil/"]
+               "/app/%2e/%0D%0Ax", "/app/%250D%250A", "/app/%20%0D%0A%0D%0A", "/%61pp/%0D%0A31%20gemini://evil/"]
     traces = []
     for _ in range(n):
         kind = rnd.choice(["cert60", "cert61", "acl53", "rate44"])
